@@ -117,9 +117,16 @@ class Impl:
         k = op[0]
         V, N, G = self.vals, self.nodes, self.graphs
         if k == "NewValue":
-            _, v, nm = op
+            v, nm = op[1], op[2]
+            extra = op[3] if len(op) > 3 else {}
             assert v == len(V)
-            self._reg("v", ir.Value(name=nm))
+            if extra.get("tensor"):
+                import numpy as np
+                t = ir.Tensor(np.array([float(v)], dtype=np.float32), name=nm, doc_string=f"doc{v}",
+                              metadata_props={"k": f"m{v}"})
+                self._reg("v", ir.Value(name=nm, const_value=t))
+            else:
+                self._reg("v", ir.Value(name=nm))
         elif k == "NewNode":
             _, n, xs, ospec, g, nm, extra = op
             assert n == len(N)
@@ -284,15 +291,20 @@ class Impl:
                                                     [V[x] for x in old_values], [V[x] for x in new_values])
         elif k == "X_RegisterInitializer":
             _, g, v = op
-            import numpy as np
-            if V[v].const_value is None:
-                V[v].const_value = ir.tensor(np.zeros((1,), dtype=np.float32))
-            G[g].register_initializer(V[v])
+            G[g].register_initializer(V[v])       # values without a backing tensor are rejected (ValueError)
         else:
             raise AssertionError(f"unknown op {k}")
 
 
 # --------------------------------------------------------------------------- observation (public accessors only)
+
+def _tensor_obs(t):
+    """What is reachable through Value.const_value: the tensor's own name, doc string, metadata, dtype, shape, bytes."""
+    if t is None:
+        return None
+    return {"id": id(t), "name": t.name, "doc": t.doc_string, "meta": dict(t.metadata_props), "dtype": str(t.dtype),
+            "shape": list(t.shape), "bytes": t.tobytes().hex()}
+
 
 def observe(im: Impl) -> dict:
     vals = []
@@ -302,7 +314,7 @@ def observe(im: Impl) -> dict:
             "uses": [[im.h(u.node, "n"), u.idx] for u in v.uses()],
             "consumers": [im.h(n, "n") for n in v.consumers()],
             "in": bool(v.is_graph_input()), "out": bool(v.is_graph_output()), "init": bool(v.is_initializer()),
-            "graph": im.h(v.graph, "g")})
+            "graph": im.h(v.graph, "g"), "const": _tensor_obs(v.const_value)})
     nodes = []
     for n in im.nodes:
         nodes.append({
@@ -626,7 +638,7 @@ class Gen:
         nv, nn, ng = len(im.vals), len(im.nodes), len(self._graphs())
         # bootstrap
         if nv < 3:
-            return ["NewValue", nv, rng.choice(VALUE_NAMES)]
+            return ["NewValue", nv, rng.choice(VALUE_NAMES), {"tensor": rng.random() < 0.4}]
         if ng == 0 and rng.random() < 0.6:
             return self._graph_new(valid=True)
         for _ in range(50):
@@ -696,7 +708,7 @@ class Gen:
         if k == "NewValue":
             if nv >= self.max_vals:
                 return None
-            return ["NewValue", nv, rng.choice(VALUE_NAMES)]
+            return ["NewValue", nv, rng.choice(VALUE_NAMES), {"tensor": rng.random() < 0.4}]
         if k == "NewNode":
             if nn >= self.max_nodes or nv >= self.max_vals + 6:
                 return None
@@ -757,6 +769,18 @@ class Gen:
             if rng.random() < 0.7:
                 ns = list(dict.fromkeys(ns))
             refs = list(im.h(x, "n") for x in G)
+            lone = self._nodes(lambda n: n.graph is None)
+            if malformed and k != "GExtend" and rng.random() < 0.5:
+                # reference node that is not in this graph + acceptable (preferably still unnamed, graph-less) new nodes
+                outside = self._nodes(lambda n: n.graph is not G)
+                if outside:
+                    ref = rng.choice(outside)
+                    cand = [n for n in lone if n != ref] or [n for n in ok if n != ref]
+                    if cand:
+                        new = list(dict.fromkeys(rng.choice(cand) for _ in range(rng.choice([1, 2, 3]))))
+                        if k in ("NAppend", "NPrepend"):
+                            return [k, ref, new]
+                        return [k, g, ref, new, {}]
             if site and bad:
                 ns.insert(rng.randrange(len(ns) + 1), rng.choice(bad))      # offending node at every position
             elif site and k != "GExtend":
@@ -823,8 +847,9 @@ class Gen:
                 return None
             r = rng.randrange(nv)
             rgo = rng.random() < 0.6
-            if site:
-                outsv = self._vals(lambda v: v.is_graph_output())
+            if site or (malformed and rng.random() < 0.5):
+                outsv = self._vals(lambda v: v.is_graph_output() and len(v.uses()) > 0) or \
+                    self._vals(lambda v: v.is_graph_output())
                 if outsv:
                     v = rng.choice(outsv)
                     badr = self._vals(lambda x: x._graph is not None and x._graph is not V[v]._graph)  # noqa: SLF001
@@ -1259,6 +1284,9 @@ def run_check(ck, which: str) -> None:  # noqa: C901, PLR0912, PLR0915
         g = Gen(rng, use_functions=(i % 3 == 0), site_rate=(0.04 if i % 4 else 0.15))
         hists.append(g.history(rng.randrange(5, 61 if not ck.thorough else 151))["steps"])
         tags.append("random")
+    for _ in range(80 if not ck.thorough else 1200):
+        hists.append(run_history(gen_rejections(rng))["steps"])
+        tags.append("rejection-shapes")
     ex_len = 2 if not ck.thorough else 3
     n_ex = 0
     for ops in all_container_histories(ex_len):
@@ -1324,7 +1352,7 @@ def run_check(ck, which: str) -> None:  # noqa: C901, PLR0912, PLR0915
                 if key in sibling:
                     ck.known_finding(key, sibling[key] + " (later failure in a history that hit this site earlier)")
                     return
-        sig = step["op"][0] + ":" + step["outcome"] + ":" + fails[0][:40]
+        sig = step["op"][0] + ":" + step["outcome"] + ":" + re.sub(r"\d+", "#", fails[0].split(": ", 2)[1] if fails[0].count(": ") >= 2 else fails[0])[:60]
         if sig in reported:
             return
         reported.add(sig)
@@ -1557,4 +1585,69 @@ def gen_multi_rau(rng) -> list[list]:
     b.graph([foreign], [], [], [])
     reps = [ok, foreign] if rng.random() < 0.7 else [ok, b.value(None)]
     b.ops.append(["X_ConvReplaceAllUses", outs, reps, True])
+    return b.ops
+
+
+# --------------------------------------------------------------------------- rejection shapes (model ops: go through the Coq tie)
+
+def gen_rejections(rng) -> list[list]:
+    """A two-graph scene followed by ONE call built to be rejected, the offending element at every position of a
+    multi-element argument, chosen so that a partial mutation would be visible (unnamed graph-less new nodes,
+    consumers present, values backed by tensors)."""
+    b = _B()
+    T = {"tensor": True}
+
+    def val(name, tensor=False):
+        b.ops.append(["NewValue", b.nv, name] + ([T] if tensor else []))
+        b.nv += 1
+        return b.nv - 1
+
+    a, w, w2, f = val("u0", True), val("u1", True), val("u2", True), val("u3", True)
+    n0, (o0,) = b.node([a])
+    n1, (o1,) = b.node([o0, w])
+    n2, (o2,) = b.node([o0])
+    g0 = b.graph([a], [o0, o1], [w, w2], [n0, n1, n2])          # o0 is a graph output with two consumers
+    m0, (p0,) = b.node([f])
+    g1 = b.graph([f], [p0], [], [m0])
+    free = [b.node([o1])[0] for _ in range(3)]                   # graph-less, unnamed, outputs unnamed
+    lone = b.node([])[0]
+    shape = rng.choice(["insert-ref", "insert-ref", "insert-foreign", "extend-foreign", "io-extend", "io-insert", "io-setitem",
+                        "rau", "rau", "rename", "rename", "init-set", "remove-safe", "resize-outputs"])
+    k = rng.randrange(1, 4)
+    if shape == "insert-ref":
+        op = [rng.choice(["GInsertBefore", "GInsertAfter"]), g0, rng.choice([m0, lone]), free[:k], {}]
+    elif shape == "insert-foreign":
+        ns = free[:k]
+        ns.insert(rng.randrange(len(ns) + 1), m0)
+        op = [rng.choice(["GInsertBefore", "GInsertAfter"]), g0, rng.choice([n0, n1, n2]), ns, {}]
+    elif shape == "extend-foreign":
+        ns = free[:k]
+        ns.insert(rng.randrange(len(ns) + 1), m0)
+        op = ["GExtend", g0, ns, {}]
+    elif shape in ("io-extend", "io-insert", "io-setitem"):
+        kind = rng.choice(["KIn", "KOut"])
+        okv = [val(None) for _ in range(k)]
+        bad = f if kind == "KOut" or rng.random() < 0.5 else o2      # foreign, or (inputs only) produced
+        if shape == "io-extend":
+            vs = list(okv)
+            vs.insert(rng.randrange(len(vs) + 1), bad)
+            op = ["IOExtend", kind, g0, vs, {}]
+        elif shape == "io-insert":
+            op = ["IOInsert", kind, g0, rng.choice([0, 1, -1, 5]), bad]
+        else:
+            op = ["IOSetItem", kind, g0, rng.choice([0, -1]), bad]
+    elif shape == "rau":
+        op = ["VReplaceAllUses", rng.choice([o0, o1]), rng.choice([f, p0]), True]
+    elif shape == "rename":
+        op = ["VSetName", w, rng.choice([None, "", "u2"])]
+    elif shape == "init-set":
+        v = rng.choice([o2, f, p0])
+        op = rng.choice([["InitSetItem", g0, "u7", v], ["InitSetItem", g0, "u1", v], ["InitAdd", g0, v]])
+    elif shape == "remove-safe":
+        ns = [n2, n1][:k] + [n0]                                     # n0's output is a graph output / still consumed
+        rng.shuffle(ns)
+        op = ["GRemove", g0, ns, True, {}]
+    else:
+        op = ["NResizeOutputs", n0, 0, []]
+    b.ops.append(op)
     return b.ops
